@@ -411,6 +411,12 @@ fn note_facts(sc: &Scenario, base: &StreamRun, run: &StreamRun, rep: &mut Report
             .skip(1)
             .any(|s| s.out.tag == Tag::Ok && s.out.obs.len() > 2);
     for st in run.steps.iter() {
+        let kind = if st.op_index == 0 {
+            0
+        } else {
+            sc.ops[st.op_index - 1].op.kind_id() as usize
+        };
+        rep.op_grid[kind % 17][st.out.tag as usize % 5] += 1;
         if st.failure_in_op && st.op_index > 0 {
             let op = &sc.ops[st.op_index - 1].op;
             if is_multi_range(op) && st.io_events > 2 {
